@@ -76,6 +76,10 @@ pub enum Top {
     Panic,
     /// runs for a while without reaching a cancellation point (non-blocking operations of another primitive)
     Busy,
+    /// never produces an event: blocked in a receive on a channel nobody sends on, until it is cancelled
+    Idle,
+    /// never produces an event: `loop { coroutine::park() }` until it is cancelled
+    IdlePark,
 }
 
 fn top_half(t: Top, rx: Option<&mpsc::Receiver<u32>>) -> bool {
@@ -94,6 +98,10 @@ fn top_half(t: Top, rx: Option<&mpsc::Receiver<u32>>) -> bool {
             coroutine::yield_now();
             std::panic::panic_any(66u32)
         }
+        Top::Idle => rx.unwrap().recv().is_ok(),
+        Top::IdlePark => loop {
+            coroutine::park();
+        },
         Top::Busy => {
             let s = may::sync::Semphore::new(0);
             s.post();
@@ -196,7 +204,8 @@ fn poll_run(e: &'static Engine, workers: usize, poller_co: bool, tops: &'static 
         }
         out
     };
-    let h = if poller_co { Some(go!(body)) } else { None };
+    let mut body = Some(body);
+    let h = if poller_co { Some(go!(body.take().unwrap())) } else { None };
     let mut out = String::new();
     // feed the receiving arms from the main thread
     if has_recv {
@@ -209,7 +218,8 @@ fn poll_run(e: &'static Engine, workers: usize, poller_co: bool, tops: &'static 
             Ok(o) => out = o,
             Err(_) => e.fail("unexpected_panic", "the polling coroutine panicked"),
         },
-        None => unreachable!(),
+        // a thread as the poller: the main thread itself
+        None => out = (body.take().unwrap())(),
     }
     drop(tx);
     // the scope is left: no arm is executing any more and nothing changes afterwards
@@ -521,6 +531,15 @@ pub fn build(quick: bool) -> Vec<Scenario> {
         // an arm ends by cancellation (removed) and another one panics: the panic is re-raised whichever ends first
         v.push(Scenario::new("C16", "poll", format!("poll.co.remove0.yield_panic.w{}", w), Arc::new(move |e| poll_run(e, w, true, &[Top::Yield, Top::Panic], 1, 0, true))));
         v.push(Scenario::new("C16", "poll", format!("poll.co.remove0.sleep_panic.w{}", w), Arc::new(move |e| poll_run(e, w, true, &[Top::Sleep, Top::Panic], 1, 0, true))).t2());
+        // an arm panics while its sibling never produces anything: the poller, parked or not, must get the panic
+        if w == 1 {
+            // known finding (default schedule only, every execution runs into the step horizon): with a coroutine as the
+            // poller the cancelled sibling cannot get its Cancel panic while the poller's unwind is suspended on the worker
+            v.push(Scenario::new("C16", "poll_known", "poll.co.panic_idle.w1", Arc::new(move |e| poll_run(e, 1, true, &[Top::Panic, Top::Idle], 1, 0, false))).sequential().bound(0).horizon(1_500));
+        }
+        v.push(Scenario::new("C16", "poll", format!("poll.thread.panic_idle.w{}", w), Arc::new(move |e| poll_run(e, w, false, &[Top::Panic, Top::Idle], 1, 0, false))));
+        v.push(Scenario::new("C16", "poll", format!("poll.thread.panic_idlepark.w{}", w), Arc::new(move |e| poll_run(e, w, false, &[Top::Panic, Top::IdlePark], 1, 0, false))));
+        v.push(Scenario::new("C16", "poll", format!("poll.thread.idle_panic.t1ms.w{}", w), Arc::new(move |e| poll_run(e, w, false, &[Top::Idle, Top::Panic], 1, 1, false))).t2());
         // an arm that is removed (cancelled) while its top half is between cancellation points
         v.push(Scenario::new("C16", "poll", format!("poll.thread.remove0.busy_yield.w{}", w), Arc::new(move |e| poll_run_thread(e, w, &[Top::Busy, Top::Yield], 1, true, false))));
         v.push(Scenario::new("C16", "poll", format!("poll.thread.remove0_at_send.busy_yield.w{}", w), Arc::new(move |e| poll_run_thread(e, w, &[Top::Busy, Top::Yield], 1, true, true))));
